@@ -10,12 +10,12 @@ Ltac Zify.zify_post_hook ::= Z.div_mod_to_equations.
 Definition mmatch (a b : minfo * ty) : Prop :=
   m_id (fst a) = m_id (fst b) /\ m_opt (fst a) = m_opt (fst b) /\ snd a = snd b.
 
-Lemma des_fmember_ext : forall V E buf a b acc pos, mmatch a b ->
-  des_fmember V E buf (fst a, (snd a, des_ty V E buf (snd a))) acc pos =
-  des_fmember V E buf (fst b, (snd b, des_ty V E buf (snd b))) acc pos.
+Lemma des_fmember_ext : forall V E buf a b acc c pos, mmatch a b ->
+  des_fmember V E buf (fst a, (snd a, des_ty V E buf (snd a))) acc c pos =
+  des_fmember V E buf (fst b, (snd b, des_ty V E buf (snd b))) acc c pos.
 Proof.
-  intros V E buf [ma ta] [mb tb] acc pos [Hid [Hopt Hty]]. cbn [fst snd] in *. subst tb.
-  unfold des_fmember, des_opt_fmember, des_mmember1, des_value. cbn [fst snd].
+  intros V E buf [ma ta] [mb tb] acc c pos [Hid [Hopt Hty]]. cbn [fst snd] in *. subst tb.
+  unfold des_fmember, des_opt_fmember, des_value. cbn [fst snd].
   rewrite Hopt, Hid. reflexivity.
 Qed.
 
@@ -33,43 +33,46 @@ Qed.
 
 (* reading the members c1 ++ e1 from bytes that hold the members c2 (matching c1):
    the reader arrives at e1 with the writer's values of c2 stored *)
-Lemma fmembers_ext : forall V E ms d apb c1 c2, Forall2 mmatch c1 c2 ->
-  forall e1 acc, mem_hyp V E ms d -> incl c2 ms ->
+Lemma fmembers_ext : forall V E B ms d apb c1 c2, Forall2 mmatch c1 c2 ->
+  forall e1 acc, mem_hyp V E B ms d -> incl c2 ms ->
   forall pos, 0 <= pos -> exists bs,
     ser_list (fun mx : minfo * (ty * F) => ser_fmember V E (cvS V E ms) d (m_id (fst mx))) (cvS V E c2) pos
       = Ok (bs, pos + blen bs) /\
-    forall pre post, blen pre = pos ->
-      des_fstruct V E (pre ++ bs ++ post) apb (cvD V E (pre ++ bs ++ post) (c1 ++ e1)) acc pos =
-      des_fstruct V E (pre ++ bs ++ post) apb (cvD V E (pre ++ bs ++ post) e1) (ins c2 d acc) (pos + blen bs).
+    (blen bs <= B -> forall pre post c, blen pre = c_org c + pos -> c_org c + pos + blen bs <= c_lim c ->
+      des_fstruct V E (pre ++ bs ++ post) apb (cvD V E (pre ++ bs ++ post) (c1 ++ e1)) acc c (c_org c + pos) =
+      des_fstruct V E (pre ++ bs ++ post) apb (cvD V E (pre ++ bs ++ post) e1) (ins c2 d acc) c
+                  (c_org c + pos + blen bs)).
 Proof.
-  intros V E ms d apb c1 c2 HF. induction HF as [|mt1 mt2 r1 r2 Hm HF IH]; intros e1 acc HH Hincl pos Hpos.
+  intros V E B ms d apb c1 c2 HF. induction HF as [|mt1 mt2 r1 r2 Hm HF IH]; intros e1 acc HH Hincl pos Hpos.
   - exists []. split; [cbn [cvS map ser_list]; f_equal; f_equal; cbn; lia|].
-    intros pre post Hpre. cbn [app]. unfold ins. cbn [fold_left].
-    replace (pos + blen []) with pos by (cbn; lia). reflexivity.
+    intros _ pre post c Hpre Hlim. cbn [app]. unfold ins. cbn [fold_left].
+    replace (c_org c + pos + blen []) with (c_org c + pos) by (cbn; lia). reflexivity.
   - assert (Hin : In mt2 ms) by (apply Hincl; now left).
-    destruct (rt_fmember V E ms d mt2 acc HH Hin pos Hpos) as [b1 [E1 D1]].
+    destruct (rt_fmember V E B ms d mt2 acc HH Hin pos Hpos) as [b1 [E1 [_ D1]]].
     pose proof (blen_nonneg b1).
     set (acc' := match lookup (m_id (fst mt2)) d with
                  | Some v => insert (m_id (fst mt2)) v acc | None => acc end) in *.
     assert (Hincl' : incl r2 ms) by (intros x Hx; apply Hincl; now right).
     destruct (IH e1 acc' HH Hincl' (pos + blen b1) ltac:(lia)) as [b2 [E2 D2]].
+    pose proof (blen_nonneg b2).
     exists (b1 ++ b2). split.
     + cbn [cvS map ser_list fst]. rewrite E1. cbn [bind].
       fold (cvS V E r2). rewrite E2. cbn [bind]. rewrite blen_app. f_equal. f_equal. lia.
-    + intros pre post Hpre.
-      pose proof (D1 pre (b2 ++ post) Hpre) as D1'.
-      pose proof (D2 (pre ++ b1) post ltac:(rewrite blen_app; lia)) as D2'.
+    + rewrite blen_app. intros HB pre post c Hpre Hlim.
+      pose proof (D1 ltac:(lia) pre (b2 ++ post) c Hpre ltac:(lia)) as D1'.
+      pose proof (D2 ltac:(lia) (pre ++ b1) post c ltac:(rewrite blen_app; lia) ltac:(lia)) as D2'.
       replace (pre ++ b1 ++ b2 ++ post) with (pre ++ (b1 ++ b2) ++ post) in D1'
         by now rewrite <- !app_assoc.
       replace ((pre ++ b1) ++ b2 ++ post) with (pre ++ (b1 ++ b2) ++ post) in D2'
         by now rewrite <- !app_assoc.
       set (buf := pre ++ (b1 ++ b2) ++ post) in *.
       cbn [app cvD map des_fstruct].
-      rewrite (des_fmember_ext V E buf mt1 mt2 acc pos Hm). rewrite D1'.
+      rewrite (des_fmember_ext V E buf mt1 mt2 acc c (c_org c + pos) Hm). rewrite D1'.
       change (map (fun mt0 : minfo * ty => (fst mt0, (snd mt0, des_ty V E buf (snd mt0)))) (r1 ++ e1))
         with (cvD V E buf (r1 ++ e1)).
-      etransitivity; [exact D2'|]. rewrite blen_app.
-      replace (pos + (blen b1 + blen b2)) with (pos + blen b1 + blen b2) by lia.
+      replace (c_org c + pos + blen b1) with (c_org c + (pos + blen b1)) by lia.
+      etransitivity; [exact D2'|].
+      replace (c_org c + (pos + blen b1) + blen b2) with (c_org c + pos + (blen b1 + blen b2)) by lia.
       unfold ins. cbn [fold_left]. reflexivity.
 Qed.
 
@@ -90,22 +93,23 @@ Proof.
   destruct b as [|b]; [lia|]. cbn [repeat firstn]. rewrite IH by lia. reflexivity.
 Qed.
 
-Lemma read_zero_tail : forall front kz p n, blen front <= p -> 0 <= n ->
-  read_bytes (front ++ zeros kz) p n = DErr E_NED p \/
-  read_bytes (front ++ zeros kz) p n = DOk (zeros n) (p + n).
+Lemma read_zero_tail : forall front kz c p n, blen front <= p -> 0 <= n ->
+  c_lim c <= blen (front ++ zeros kz) ->
+  read_bytes (front ++ zeros kz) c p n = DErr E_NED p \/
+  read_bytes (front ++ zeros kz) c p n = DOk (zeros n) (p + n).
 Proof.
-  intros front kz p n Hp Hn. unfold read_bytes.
-  destruct (p + n >? blen (front ++ zeros kz)) eqn:Hc; [now left|right].
+  intros front kz c p n Hp Hn Hlim. unfold read_bytes.
+  destruct (p + n >? c_lim c) eqn:Hc; [now left|right].
   rewrite Z.gtb_ltb in Hc. apply Z.ltb_ge in Hc. f_equal.
-  pose proof (blen_nonneg front). rewrite blen_app in Hc. unfold blen in *. unfold zeros in *.
-  rewrite repeat_length in Hc.
+  pose proof (blen_nonneg front). rewrite blen_app in Hlim. unfold blen in *. unfold zeros in *.
+  rewrite repeat_length in Hlim.
   rewrite skipn_app, skipn_all2 by lia. cbn [app]. rewrite skipn_repeat.
   apply firstn_repeat. lia.
 Qed.
 
-Lemma seek_cases : forall buf q n,
-  seek buf q n = DErr E_NED q \/ seek buf q n = DOk tt (q + n).
-Proof. intros. unfold seek. destruct (q + n >? blen buf); auto. Qed.
+Lemma seek_cases : forall c q n,
+  seek c q n = DErr E_NED q \/ seek c q n = DOk tt (q + n).
+Proof. intros. unfold seek. destruct (q + n >? c_lim c); auto. Qed.
 
 Lemma le_dec_zeros : forall n, le_dec (repeat 0 n) = 0.
 Proof. induction n as [|n IH]; [reflexivity|]. cbn [repeat le_dec]. rewrite IH. reflexivity. Qed.
@@ -123,63 +127,66 @@ Proof.
   destruct k; try reflexivity; cbv zeta; rewrite int_dec_zeros; reflexivity.
 Qed.
 
-Lemma des_prim_zero_tail : forall V E front kz k q, blen front <= q ->
-  (exists p', des_prim V E (front ++ zeros kz) k q = DErr E_NED p') \/
-  (exists p', des_prim V E (front ++ zeros kz) k q = DOk 0 p' /\ q <= p').
+Lemma des_prim_zero_tail : forall V E front kz c k q, blen front <= q ->
+  c_lim c <= blen (front ++ zeros kz) ->
+  (exists p', des_prim V E (front ++ zeros kz) c k q = DErr E_NED p') \/
+  (exists p', des_prim V E (front ++ zeros kz) c k q = DOk 0 p' /\ q <= p').
 Proof.
-  intros V E front kz k q Hq. rewrite des_prim_unfold. unfold dec_align.
-  match goal with |- context [padlen q ?x] => set (a := x) end.
-  assert (Ha : 0 < a) by (pose proof (sk_size_pos k); subst a; destruct V; lia).
-  pose proof (padlen_range q a Ha) as Hpad.
-  destruct (seek_cases (front ++ zeros kz) q (padlen q a)) as [-> | ->]; cbn [dbind]; [left; eauto|].
+  intros V E front kz c k q Hq Hlim. rewrite des_prim_unfold. unfold dec_align.
+  match goal with |- context [padlen ?y ?x] =>
+    assert (Ha : 0 < x) by (pose proof (sk_size_pos k); destruct V; lia);
+    pose proof (padlen_range y x Ha) as Hpr; set (pl := padlen y x) in * end.
+  assert (Hpad : 0 <= pl) by lia.
+  destruct (seek_cases c q pl) as [-> | ->]; cbn [dbind]; [left; eauto|].
   pose proof (sk_size_pos k) as Hk.
-  destruct (read_zero_tail front kz (q + padlen q a) (sk_size k) ltac:(lia) ltac:(lia)) as [-> | ->];
+  destruct (read_zero_tail front kz c (q + pl) (sk_size k) ltac:(lia) ltac:(lia) Hlim) as [-> | ->];
     cbn [dbind]; [left; eauto|].
   right. eexists. split; [apply prim_conv_zeros|lia].
 Qed.
 
-Lemma des_flat_zero_tail : forall V E front kz t q, flat_ty t = true -> blen front <= q ->
-  (exists p', des_ty V E (front ++ zeros kz) t q = DErr E_NED p') \/
-  (exists p', des_ty V E (front ++ zeros kz) t q = DOk (default_of t) p' /\ q <= p').
+Lemma des_flat_zero_tail : forall V E front kz c t q, flat_ty t = true -> blen front <= q ->
+  c_lim c <= blen (front ++ zeros kz) ->
+  (exists p', des_ty V E (front ++ zeros kz) t c q = DErr E_NED p') \/
+  (exists p', des_ty V E (front ++ zeros kz) t c q = DOk (default_of t) p' /\ q <= p').
 Proof.
-  intros V E front kz t q Ht Hq.
+  intros V E front kz c t q Ht Hq Hlim.
   destruct t as [p| | | | | | |]; try discriminate; cbn [des_ty default_of].
-  - destruct (des_prim_zero_tail V E front kz (prim_sk p) q Hq) as [[p' ->] | [p' [-> Hp]]];
+  - destruct (des_prim_zero_tail V E front kz c (prim_sk p) q Hq Hlim) as [[p' ->] | [p' [-> Hp]]];
       cbn [dbind]; [left; eauto|right; eauto].
   - unfold des_string.
-    destruct (des_prim_zero_tail V E front kz KU32 q Hq) as [[p' ->] | [p1 [-> Hp1]]];
+    destruct (des_prim_zero_tail V E front kz c KU32 q Hq Hlim) as [[p' ->] | [p1 [-> Hp1]]];
       cbn [dbind]; [left; eauto|].
     change (Z.max 0 (0 - 1)) with 0.
-    destruct (read_zero_tail front kz p1 0 ltac:(lia) ltac:(lia)) as [-> | ->]; cbn [dbind]; [left; eauto|].
-    destruct (read_zero_tail front kz (p1 + 0) 1 ltac:(lia) ltac:(lia)) as [-> | ->]; cbn [dbind]; [left; eauto|].
+    destruct (read_zero_tail front kz c p1 0 ltac:(lia) ltac:(lia) Hlim) as [-> | ->]; cbn [dbind]; [left; eauto|].
+    destruct (read_zero_tail front kz c (p1 + 0) 1 ltac:(lia) ltac:(lia) Hlim) as [-> | ->]; cbn [dbind]; [left; eauto|].
     right. eexists. split; [reflexivity|lia].
   - unfold des_wstring.
-    destruct (des_prim_zero_tail V E front kz KU32 q Hq) as [[p' ->] | [p1 [-> Hp1]]];
+    destruct (des_prim_zero_tail V E front kz c KU32 q Hq Hlim) as [[p' ->] | [p1 [-> Hp1]]];
       cbn [dbind]; [left; eauto|].
     change (0 =? 0) with true. cbv iota. cbn [dbind]. right. eauto.
 Qed.
 
 (* the members e1 that the writer does not have: each is either not stored at all or stored
    with its default value *)
-Lemma des_fstruct_zero_tail : forall V E front kz e1 acc q,
+Lemma des_fstruct_zero_tail : forall V E front kz c e1 acc q,
   forallb (fun mt : minfo * ty => flat_ty (snd mt) && negb (m_opt (fst mt))) e1 = true ->
-  blen front <= q ->
-  exists acc' p', des_fstruct V E (front ++ zeros kz) true (cvD V E (front ++ zeros kz) e1) acc q = DOk acc' p' /\
+  blen front <= q -> c_lim c <= blen (front ++ zeros kz) ->
+  exists acc' p', des_fstruct V E (front ++ zeros kz) true (cvD V E (front ++ zeros kz) e1) acc c q = DOk acc' p' /\
     forall k, lookup k acc' = lookup k acc \/
               exists mt, In mt e1 /\ m_id (fst mt) = k /\ lookup k acc' = Some (default_of (snd mt)).
 Proof.
-  intros V E front kz e1. set (buf := front ++ zeros kz).
-  induction e1 as [|mt r IH]; intros acc q Hf Hq.
+  intros V E front kz c e1. set (buf := front ++ zeros kz).
+  induction e1 as [|mt r IH]; intros acc q Hf Hq Hlim.
   - exists acc, q. split; [reflexivity|]. intros k. now left.
   - cbn [forallb] in Hf. apply andb_prop in Hf as [Hf1 Hf2]. apply andb_prop in Hf1 as [Hflat Hopt].
     apply negb_true_iff in Hopt.
     cbn [cvD map des_fstruct]. unfold des_fmember. cbn [fst]. rewrite Hopt.
     unfold des_value. cbn [fst snd].
-    destruct (des_flat_zero_tail V E front kz (snd mt) q Hflat Hq) as [[p' Hd] | [p' [Hd Hp]]];
+    destruct (des_flat_zero_tail V E front kz c (snd mt) q Hflat Hq Hlim) as [[p' Hd] | [p' [Hd Hp]]];
       fold buf in Hd; rewrite Hd; cbn [dbind].
     + change (true && (E_NED =? E_NED)) with true. cbv iota.
       exists acc, p'. split; [reflexivity|]. intros k. now left.
-    + destruct (IH (insert (m_id (fst mt)) (default_of (snd mt)) acc) p' Hf2 ltac:(lia)) as [acc' [p'' [Hr Hl]]].
+    + destruct (IH (insert (m_id (fst mt)) (default_of (snd mt)) acc) p' Hf2 ltac:(lia) Hlim) as [acc' [p'' [Hr Hl]]].
       exists acc', p''. split; [exact Hr|]. intros k.
       destruct (Hl k) as [Hk | [mt' [Hin [Hid Hk]]]].
       * destruct (Z.eq_dec k (m_id (fst mt))) as [->|Hne].
@@ -198,58 +205,64 @@ Definition flat_members (ms : list (minfo * ty)) : bool :=
 Lemma ins_not_in : forall ms d acc k, mem k (ids ms) = false -> lookup k (ins ms d acc) = lookup k acc.
 Proof. intros. rewrite ins_lookup. now rewrite H. Qed.
 
-Theorem struct_prefix_decodes : forall V E x c1 c2 e1 e2 d,
+Theorem struct_prefix_decodes : forall V E B x c1 c2 e1 e2 d,
+  B <= u32_max ->
   x <> Mutable -> Forall2 mmatch c1 c2 ->
-  mem_hyp V E (c2 ++ e2) d ->
+  mem_hyp V E B (c2 ++ e2) d ->
   (e1 = [] \/ (e2 = [] /\ x = Appendable /\ flat_members e1 = true)) ->
   forall pos, 0 <= pos -> exists bs,
     ser_struct_nested V E x (cvS V E (c2 ++ e2)) d pos = Ok (bs, pos + blen bs) /\
-    forall pre kz, blen pre = pos -> exists acc' p',
-      des_struct_nested V E (pre ++ bs ++ zeros kz) x (cvD V E (pre ++ bs ++ zeros kz) (c1 ++ e1)) pos
+    (blen bs <= B -> forall pre kz c, blen pre = c_org c + pos -> c_org c + pos + blen bs <= c_lim c ->
+      c_lim c <= blen (pre ++ bs ++ zeros kz) -> exists acc' p',
+      des_struct_nested V E (pre ++ bs ++ zeros kz) x (cvD V E (pre ++ bs ++ zeros kz) (c1 ++ e1)) c (c_org c + pos)
         = DOk acc' p' /\
       forall k, lookup k acc' = lookup k (ins c2 d []) \/
-                exists mt, In mt e1 /\ m_id (fst mt) = k /\ lookup k acc' = Some (default_of (snd mt)).
+                exists mt, In mt e1 /\ m_id (fst mt) = k /\ lookup k acc' = Some (default_of (snd mt))).
 Proof.
-  intros V E x c1 c2 e1 e2 d Hx HF HH Hcase.
+  intros V E B x c1 c2 e1 e2 d HBu Hx HF HH Hcase.
   set (apb := match x with Appendable => true | _ => false end).
   (* the member bytes: common part, then the writer's extra members *)
   assert (Hmem : forall pos, 0 <= pos -> exists b1 b2,
     ser_fstruct V E (cvS V E (c2 ++ e2)) d pos = Ok (b1 ++ b2, pos + blen (b1 ++ b2)) /\
     (e2 = [] -> b2 = []) /\
-    forall pre post, blen pre = pos ->
-      des_fstruct V E (pre ++ (b1 ++ b2) ++ post) apb (cvD V E (pre ++ (b1 ++ b2) ++ post) (c1 ++ e1)) [] pos =
+    (blen (b1 ++ b2) <= B -> forall pre post c, blen pre = c_org c + pos ->
+      c_org c + pos + blen (b1 ++ b2) <= c_lim c ->
+      des_fstruct V E (pre ++ (b1 ++ b2) ++ post) apb (cvD V E (pre ++ (b1 ++ b2) ++ post) (c1 ++ e1)) [] c
+                  (c_org c + pos) =
       des_fstruct V E (pre ++ (b1 ++ b2) ++ post) apb (cvD V E (pre ++ (b1 ++ b2) ++ post) e1)
-                  (ins c2 d []) (pos + blen b1)).
+                  (ins c2 d []) c (c_org c + pos + blen b1))).
   { intros pos Hpos.
-    destruct (fmembers_ext V E (c2 ++ e2) d apb c1 c2 HF e1 [] HH
+    destruct (fmembers_ext V E B (c2 ++ e2) d apb c1 c2 HF e1 [] HH
                 ltac:(intros y Hy; apply in_or_app; now left) pos Hpos) as [b1 [E1 D1]].
     pose proof (blen_nonneg b1).
-    destruct (rt_fmembers V E (c2 ++ e2) d apb e2 [] HH
+    destruct (rt_fmembers V E B (c2 ++ e2) d apb e2 [] HH
                 ltac:(intros y Hy; apply in_or_app; now right) (pos + blen b1) ltac:(lia)) as [b2 [E2 _]].
+    pose proof (blen_nonneg b2).
     exists b1, b2. split; [|split].
     - unfold ser_fstruct. unfold cvS at 2. rewrite map_app. fold (cvS V E c2). fold (cvS V E e2).
       rewrite ser_list_app. rewrite E1. cbn [bind]. rewrite E2. cbn [bind].
       rewrite blen_app. f_equal. f_equal. lia.
     - intros ->. cbn [cvS map ser_list] in E2. inversion E2 as [[Hb Hp]]. reflexivity.
-    - intros pre post Hpre.
+    - rewrite blen_app. intros HB pre post c Hpre Hlim.
       replace (pre ++ (b1 ++ b2) ++ post) with (pre ++ b1 ++ (b2 ++ post)) by now rewrite <- !app_assoc.
-      apply D1. exact Hpre. }
+      apply D1; [lia|exact Hpre|lia]. }
   assert (Hbody : forall pos0, 0 <= pos0 -> exists bs,
     ser_fstruct V E (cvS V E (c2 ++ e2)) d pos0 = Ok (bs, pos0 + blen bs) /\
-    forall pre kz, blen pre = pos0 -> exists acc' p',
-      des_fstruct V E (pre ++ bs ++ zeros kz) apb (cvD V E (pre ++ bs ++ zeros kz) (c1 ++ e1)) [] pos0
+    (blen bs <= B -> forall pre kz c, blen pre = c_org c + pos0 -> c_org c + pos0 + blen bs <= c_lim c ->
+      c_lim c <= blen (pre ++ bs ++ zeros kz) -> exists acc' p',
+      des_fstruct V E (pre ++ bs ++ zeros kz) apb (cvD V E (pre ++ bs ++ zeros kz) (c1 ++ e1)) [] c (c_org c + pos0)
         = DOk acc' p' /\
       forall k, lookup k acc' = lookup k (ins c2 d []) \/
-                exists mt, In mt e1 /\ m_id (fst mt) = k /\ lookup k acc' = Some (default_of (snd mt))).
+                exists mt, In mt e1 /\ m_id (fst mt) = k /\ lookup k acc' = Some (default_of (snd mt)))).
   { intros pos0 Hpos0. destruct (Hmem pos0 Hpos0) as [b1 [b2 [E1 [Hb2 D1]]]].
     exists (b1 ++ b2). split; [exact E1|].
-    intros pre kz Hpre. rewrite (D1 pre (zeros kz) Hpre).
+    intros HB pre kz c Hpre Hlim Hlim2. rewrite (D1 HB pre (zeros kz) c Hpre Hlim).
     destruct Hcase as [-> | [He2 [Hxa Hfl]]].
-    - exists (ins c2 d []), (pos0 + blen b1). split; [reflexivity|]. intros k. now left.
-    - rewrite (Hb2 He2). rewrite app_nil_r.
-      replace (pre ++ b1 ++ zeros kz) with ((pre ++ b1) ++ zeros kz) by now rewrite <- app_assoc.
+    - exists (ins c2 d []), (c_org c + pos0 + blen b1). split; [reflexivity|]. intros k. now left.
+    - rewrite (Hb2 He2) in *. rewrite app_nil_r in *.
+      replace (pre ++ b1 ++ zeros kz) with ((pre ++ b1) ++ zeros kz) in * by now rewrite <- app_assoc.
       subst apb. rewrite Hxa.
-      apply des_fstruct_zero_tail; [exact Hfl|rewrite blen_app; lia]. }
+      apply des_fstruct_zero_tail; [exact Hfl|rewrite blen_app; lia|exact Hlim2]. }
   intros pos Hpos.
   destruct x; [| |congruence]; unfold ser_struct_nested, des_struct_nested.
   - (* FINAL *) exact (Hbody pos Hpos).
@@ -259,23 +272,38 @@ Proof.
     set (pad := enc_align V2 4 pos).
     assert (Hp1 : 0 <= pos + blen pad + 4) by (pose proof (blen_nonneg pad); lia).
     destruct (Hbody _ Hp1) as [bb [E1 D1]].
+    pose proof (blen_nonneg bb) as Hbb. pose proof (blen_nonneg pad) as Hpd.
     set (z := wrap_u32 (blen bb)).
     assert (Hz : 0 <= z <= u32_max) by (unfold z, wrap_u32, two32, u32_max; lia).
-    destruct (rt_u32 V2 E z Hz pos Hpos) as [hb [E2 D2]].
+    destruct (rt_u32 V2 E B z Hz pos Hpos) as [hb [E2 [_ D2]]].
     assert (Hhb : hb = pad ++ int_enc E 4 z).
     { unfold ser_prim, ret in E2. inversion E2. reflexivity. }
     subst hb.
     exists (pad ++ int_enc E 4 z ++ bb). split.
     + rewrite E1. cbn [bind]. f_equal. f_equal. rewrite !blen_app, int_enc_blen. lia.
-    + intros pre kz Hpre.
-      assert (Hign : des_u32_ignore V2 E (pre ++ (pad ++ int_enc E 4 z ++ bb) ++ zeros kz) pos
-                     = pos + blen pad + 4).
-      { unfold des_u32_ignore.
-        replace (pre ++ (pad ++ int_enc E 4 z ++ bb) ++ zeros kz)
-          with (pre ++ (pad ++ int_enc E 4 z) ++ (bb ++ zeros kz)) by now rewrite <- !app_assoc.
-        rewrite (D2 pre (bb ++ zeros kz) Hpre). rewrite blen_app, int_enc_blen. lia. }
-      rewrite Hign.
-      replace (pre ++ (pad ++ int_enc E 4 z ++ bb) ++ zeros kz)
-        with ((pre ++ pad ++ int_enc E 4 z) ++ bb ++ zeros kz) by now rewrite <- !app_assoc.
-      apply D1. rewrite !blen_app, int_enc_blen. lia.
+    + rewrite !blen_app, int_enc_blen. intros HB pre kz c Hpre Hlim Hlim2.
+      assert (Hzb : z = blen bb).
+      { unfold z, wrap_u32, two32. apply Z.mod_small. unfold u32_max in *. lia. }
+      unfold des_appendable2.
+      set (buf := pre ++ (pad ++ int_enc E 4 z ++ bb) ++ zeros kz) in *.
+      assert (Hbuf0 : buf = pre ++ (pad ++ int_enc E 4 z) ++ (bb ++ zeros kz))
+        by (unfold buf; now rewrite <- !app_assoc).
+      assert (Hbuf1 : buf = (pre ++ pad ++ int_enc E 4 z) ++ bb ++ zeros kz)
+        by (unfold buf; now rewrite <- !app_assoc).
+      set (c' := mkC (c_org c) (c_org c + (pos + blen pad + 4) + blen bb)).
+      destruct (D1 ltac:(lia) (pre ++ pad ++ int_enc E 4 z) kz c') as [acc' [p' [Hd Hl]]].
+      { unfold c'. cbn [c_org]. rewrite !blen_app, int_enc_blen. lia. }
+      { unfold c'. cbn [c_org c_lim]. lia. }
+      { unfold c'. cbn [c_lim]. rewrite <- Hbuf1. unfold buf. rewrite !blen_app, int_enc_blen.
+        pose proof (blen_nonneg (zeros kz)). lia. }
+      rewrite <- Hbuf1 in Hd. unfold c' in Hd. cbn [c_org] in Hd. fold c' in Hd.
+      exists acc', (c_org c + (pos + blen pad + 4) + blen bb). split; [|exact Hl].
+      assert (Hdh : des_prim V2 E buf c KU32 (c_org c + pos) = DOk z (c_org c + (pos + blen pad + 4))).
+      { rewrite Hbuf0.
+        rewrite (D2 ltac:(rewrite blen_app, int_enc_blen; lia) pre (bb ++ zeros kz) c Hpre
+                    ltac:(rewrite blen_app, int_enc_blen; lia)).
+        rewrite blen_app, int_enc_blen. f_equal. lia. }
+      rewrite Hdh. cbn [dbind]. cbv zeta.
+      replace (c_org c + (pos + blen pad + 4) + z) with (c_org c + (pos + blen pad + 4) + blen bb) by lia.
+      rewrite gtb_false by lia. fold c'. unfold apb in Hd. cbv iota in Hd. rewrite Hd. reflexivity.
 Qed.
